@@ -1,9 +1,8 @@
 (* C15, second stage - the executable leaf semantics of Model/Exec.v (quarter-turn angles `cs2`, no
    measured matrices: empty table) satisfies the facts about QU rotations, the half-wave plate and the
    polariser that Lemmas/Sound.v (C01: `leaf_facts`, fields lf_rr lf_rrT lf_rTr lf_rTrT lf_rot_hwp
-   lf_rotT_hwp lf_pol_hwp) ASSUMES.  Four of the seven hold as stated; lf_rot_hwp and lf_rotT_hwp hold
-   for square rotations (in_structure = out_structure, which @orthogonal guarantees in furax) and are
-   REFUTED as stated for an ill-formed non-square rotation term (see exec_lf_rot_hwp_needs_square). *)
+   lf_rotT_hwp lf_pol_hwp) ASSUMES - all seven exactly as stated there (Model/Algebra.v `structs`
+   makes the @square classes square, as the decorators do in furax). *)
 From Coq Require Import List Bool Arith NArith ZArith QArith Qcanon Lia Ring.
 From Furax Require Import Base.Pytree Model.Op Model.Algebra Model.Denote Model.Exec Lemmas.Sound.
 Import ListNotations.
@@ -169,17 +168,17 @@ Lemma lookup_nil_if (i : N) : (if (i =? 0)%N then None else lookup [] (2 * i)%N)
 Proof. now destruct (i =? 0)%N. Qed.
 Lemma lsem_R i si so a x :
   lsem (Prim i CQURotation si so (PAngles a)) x = if negb (has_struct x si) then None else rot_value false a x.
-Proof. unfold lsem, leafsem, in_struct, out_struct. cbn [structs fst snd]. now rewrite lookup_nil_if. Qed.
+Proof. unfold lsem, leafsem, in_struct, out_struct. cbn [structs fst snd square_cls]. now rewrite lookup_nil_if. Qed.
 Lemma lsem_RT i j sj soj a x :
   lsem (Wrap i WQURotT (Prim j CQURotation sj soj (PAngles a))) x =
-  if negb (has_struct x soj) then None else rot_value true a x.
-Proof. unfold lsem, leafsem, in_struct, out_struct. cbn [structs fst snd]. now rewrite lookup_nil_if. Qed.
+  if negb (has_struct x sj) then None else rot_value true a x.
+Proof. unfold lsem, leafsem, in_struct, out_struct. cbn [structs fst snd square_cls]. now rewrite lookup_nil_if. Qed.
 Lemma lsem_H i si so p x :
   lsem (Prim i CHWP si so p) x = if negb (has_struct x si) then None else hwp_value x.
-Proof. unfold lsem, leafsem, in_struct, out_struct. cbn [structs fst snd]. now rewrite lookup_nil_if. Qed.
+Proof. unfold lsem, leafsem, in_struct, out_struct. cbn [structs fst snd square_cls]. now rewrite lookup_nil_if. Qed.
 Lemma lsem_P i si so p x :
   lsem (Prim i CLinearPolarizer si so p) x = if negb (has_struct x si) then None else pol_value x.
-Proof. unfold lsem, leafsem, in_struct, out_struct. cbn [structs fst snd]. now rewrite lookup_nil_if. Qed.
+Proof. unfold lsem, leafsem, in_struct, out_struct. cbn [structs fst snd square_cls]. now rewrite lookup_nil_if. Qed.
 
 Ltac strip H := match type of H with (if negb ?b then None else _) = Some _ => destruct b eqn:?; cbn [negb] in H; [|discriminate H] end.
 
@@ -193,7 +192,7 @@ Proof.
 Qed.
 Theorem exec_lf_rrT : forall il sil sol la ir jr sjr sojr ra x y1 y,
   lsem (Wrap ir WQURotT (R K jr sjr sojr ra)) x = Some y1 -> lsem (R K il sil sol la) y1 = Some y ->
-  lsem (R K fresh sojr sojr (qsub la ra)) x = Some y.
+  lsem (R K fresh sjr sjr (qsub la ra)) x = Some y.
 Proof.
   unfold R. intros il sil sol la ir jr sjr sojr ra x y1 y H1 H2. rewrite lsem_RT in H1. rewrite lsem_R in H2. rewrite lsem_R. strip H1. strip H2.
   cbn [negb]. exact (rot_value_comp true false ra la _ (rot_lists_rrT ra la) x y1 y H1 H2).
@@ -208,7 +207,7 @@ Qed.
 Theorem exec_lf_rTrT : forall il jl sjl sojl la ir jr sjr sojr ra x y1 y,
   lsem (Wrap ir WQURotT (R K jr sjr sojr ra)) x = Some y1 ->
   lsem (Wrap il WQURotT (R K jl sjl sojl la)) y1 = Some y ->
-  lsem (R K fresh sojr sojr (qsub (qneg la) ra)) x = Some y.
+  lsem (R K fresh sjr sjr (qsub (qneg la) ra)) x = Some y.
 Proof.
   unfold R. intros il jl sjl sojl la ir jr sjr sojr ra x y1 y H1 H2. rewrite lsem_RT in H1. rewrite lsem_RT in H2. rewrite lsem_R. strip H1. strip H2.
   cbn [negb]. exact (rot_value_comp true true ra la _ (rot_lists_rTrT ra la) x y1 y H1 H2).
@@ -320,27 +319,26 @@ Proof.
   destruct p; try discriminate. eauto 6.
 Qed.
 
-(* R(a) HWP = HWP R(a).T for a square rotation (si = so, as @orthogonal declares) *)
-Theorem exec_lf_rot_hwp_square : forall il sil pl r x y1 y, is_a r [CHWP] = true ->
-  xden r x = Some y1 -> lsem (Prim il CQURotation sil sil pl) y1 = Some y ->
-  exists y2, lsem (Wrap fresh WQURotT (Prim il CQURotation sil sil pl)) x = Some y2 /\ xden r y2 = Some y.
+(* R(a) HWP = HWP R(a).T : exactly the field lf_rot_hwp (QURotationOperator is @orthogonal, hence
+   square: Model/Algebra.v `structs` gives out_structure = in_structure for the class) *)
+Theorem exec_lf_rot_hwp : forall il sil sol pl r x y1 y, is_a r [CHWP] = true ->
+  xden r x = Some y1 -> lsem (Prim il CQURotation sil sol pl) y1 = Some y ->
+  exists y2, lsem (Wrap fresh WQURotT (Prim il CQURotation sil sol pl)) x = Some y2 /\ xden r y2 = Some y.
 Proof.
-  intros il sil pl r x y1 y Hr H1 H2. destruct (is_hwp_inv _ Hr) as (i & si & so & p & ->).
+  intros il sil sol pl r x y1 y Hr H1 H2. destruct (is_hwp_inv _ Hr) as (i & si & so & p & ->).
   destruct (lsem_rot_angles _ _ _ _ _ _ H2) as (a & ->).
   unfold xden in *. cbn [denote] in *. rewrite lsem_H in H1. rewrite lsem_R in H2. strip H1. strip H2.
   destruct (rot_value_hwp _ _ _ _ _ H1 H2) as (y2 & R2 & Hy). cbn [negb] in R2.
   exists y2. rewrite lsem_RT, lsem_H. rewrite (rot_value_struct _ _ _ _ si R2), Heqb.
   rewrite <- (hwp_value_struct _ _ sil H1), Heqb0. cbn [negb]. auto.
 Qed.
-(* R(a).T HWP = HWP R(a) *)
-Theorem exec_lf_rotT_hwp_square : forall il lx r x y1 y, is_a r [CHWP] = true ->
-  in_struct lx = out_struct lx ->
+(* R(a).T HWP = HWP R(a) : exactly the field lf_rotT_hwp *)
+Theorem exec_lf_rotT_hwp : forall il lx r x y1 y, is_a r [CHWP] = true ->
   xden r x = Some y1 -> lsem (Wrap il WQURotT lx) y1 = Some y ->
   exists y2, xden lx x = Some y2 /\ xden r y2 = Some y.
 Proof.
-  intros il lx r x y1 y Hr Hsq H1 H2. destruct (is_hwp_inv _ Hr) as (i & si & so & p & ->).
+  intros il lx r x y1 y Hr H1 H2. destruct (is_hwp_inv _ Hr) as (i & si & so & p & ->).
   destruct (lsem_rotT_inner _ _ _ _ H2) as (j & sj & soj & a & ->).
-  unfold in_struct, out_struct in Hsq. cbn [structs fst snd] in Hsq. subst soj.
   unfold xden in *. cbn [denote] in *. rewrite lsem_H in H1. rewrite lsem_RT in H2. strip H1. strip H2.
   destruct (rot_value_hwp _ _ _ _ _ H1 H2) as (y2 & R2 & Hy). cbn [negb] in R2.
   exists y2. rewrite lsem_R, lsem_H. rewrite (rot_value_struct _ _ _ _ si R2), Heqb.
@@ -356,27 +354,3 @@ Proof.
   rewrite <- (hwp_value_struct _ _ si' H1), Heqb0. cbn [negb]. now rewrite <- (pol_value_hwp _ _ H1).
 Qed.
 
-(* lf_rot_hwp as stated in Sound.leaf_facts (no squareness premise) FAILS for this leaf semantics on an
-   ill-formed rotation term whose declared in/out structures differ; such a term is never built from furax
-   objects (QURotationOperator is @orthogonal, hence square), but C01's assumption about `Model/Exec.v`
-   needs that premise (reported to the lead). *)
-Definition bad_s1 : struct := Node (KStokes 2) [Leaf (mkSds [1] 0); Leaf (mkSds [1] 0)].
-Definition bad_s2 : struct := Node (KStokes 2) [Leaf (mkSds [2] 0); Leaf (mkSds [2] 0)].
-Definition bad_x : xvalue := Node (KStokes 2) [Leaf [k1]; Leaf [k0]].
-Example exec_lf_rot_hwp_needs_square :
-  let r : xop := Prim 1%N CHWP bad_s1 bad_s1 PNone in
-  is_a r [CHWP] = true /\
-  (exists y1 y, xden r bad_x = Some y1 /\ lsem (Prim 2%N CQURotation bad_s1 bad_s2 (PAngles [0%Q])) y1 = Some y) /\
-  lsem (Wrap fresh WQURotT (Prim 2%N CQURotation bad_s1 bad_s2 (PAngles [0%Q]))) bad_x = None.
-Proof.
-  split; [reflexivity|]. split; [|vm_compute; reflexivity].
-  eexists. eexists. split; vm_compute; reflexivity.
-Qed.
-Lemma exec_lf_rot_hwp_refuted :
-  ~ (forall il sil sol pl r x y1 y, is_a r [CHWP] = true ->
-       xden r x = Some y1 -> lsem (Prim il CQURotation sil sol pl) y1 = Some y ->
-       exists y2, lsem (Wrap fresh WQURotT (Prim il CQURotation sil sol pl)) x = Some y2 /\ xden r y2 = Some y).
-Proof.
-  intros H. destruct exec_lf_rot_hwp_needs_square as (Hr & (y1 & y & H1 & H2) & Hn).
-  destruct (H _ _ _ _ _ _ _ _ Hr H1 H2) as (y2 & E & _). rewrite Hn in E. discriminate.
-Qed.
